@@ -58,8 +58,11 @@ std::vector<FilePlan> materialise(const hu::Plan& p, const std::string& root) {
       if (kind == K_COMPARE) {
         ++ncmp;
         const std::string a = name + "_c" + std::to_string(ncmp) + ".res", b = name + "_c" + std::to_string(ncmp) + ".ref";
-        std::ofstream fa(d + "/" + a), fb(d + "/" + b);
-        for (int r = 0; r < 4; ++r) { fa << r << " " << 1.0 + r << "\n"; fb << r << " " << 1.0 + r + ((it[3] == 0 && r == 2) ? 0.5 : 0.0) << "\n"; }
+        // it[3]: 1 the comparison passes; 0 it fails by value; 2 the reference file is missing; 3 the result is shorter than the reference
+        // (the last two make the comparison itself raise an error: the check fails all the same)
+        std::ofstream fa(d + "/" + a);
+        for (int r = 0; r < (it[3] == 3 ? 2 : 4); ++r) fa << r << " " << 1.0 + r << "\n";
+        if (it[3] != 2) { std::ofstream fb(d + "/" + b); for (int r = 0; r < 4; ++r) fb << r << " " << 1.0 + r + ((it[3] == 0 && r == 2) ? 0.5 : 0.0) << "\n"; }
         c << "@TestType Absolute;\n@Precision 1.e-6;\n@Test '" << a << "' '" << b << "' 2;\n";
         continue;
       }
@@ -138,7 +141,7 @@ struct H52 : hu::Harness {
       for (long k = 0; k < n; ++k) {
         long w = r.range(0, 11), kind, a = 0, b = 0, c = 0;
         if (w < 5) { kind = K_EXIT; a = 0; } else if (w < 7) { kind = K_EXIT; a = r.range(1, 3); } else if (w < 8) { kind = K_SIGNAL; a = 9; } else if (w < 9) { kind = K_EXECFAIL; }
-        else if (w < 11) { kind = K_OUTPUT; a = r.chance(3, 4); } else { kind = K_COMPARE; a = r.chance(3, 4); }
+        else if (w < 11) { kind = K_OUTPUT; a = r.chance(3, 4); } else { kind = K_COMPARE; a = r.chance(3, 4) ? 1 : (r.chance(1, 2) ? 0 : r.range(2, 3)); }
         if (kind != K_COMPARE) { b = (r.range(0, 14) << 1) | (r.chance(1, 8) ? 1 : 0); if (kind == K_EXIT && r.chance(1, 30)) c = r.range(9, 12); }
         p.ops.push_back({f, d, kind, a, b, c});
       }
@@ -201,7 +204,7 @@ struct H52 : hu::Harness {
         bool cmdfail = false, cmpfail = false, hascmp = false;
         for (auto po : kv.second) { auto& o = *po;
           if (o[2] != K_COMPARE && (o[4] & 1)) simple = false;
-          if (o[2] == K_COMPARE) { hascmp = true; if (o[3] == 0) cmpfail = true; }
+          if (o[2] == K_COMPARE) { hascmp = true; if (o[3] != 1) cmpfail = true; }
           else if ((o[2] == K_EXIT && (o[3] & 0xff) != 0) || o[2] == K_SIGNAL || o[2] == K_EXECFAIL || (o[2] == K_OUTPUT && o[3] == 0)) cmdfail = true; }
         if (cmpfail || (cmdfail && (par(1, 0) == 0 || !hascmp))) anyfail = true;
       } }
